@@ -107,6 +107,35 @@ def on_break(r, breaks, eps=1e-11):
   return near_break(r, breaks, eps)
 
 
+# nominal precision of each output format: a token must have an absolute quantum <= A or a relative quantum <= R.
+# (A change of notation or MORE digits is not an alarm; fewer digits than the format has always carried is.)
+PRECISION = {
+  "lammps": (1e-8, 1e-9), "dlpoly_table": (None, 1.01e-7), "setfl": (None, 1.01e-16), "tabeam": (1e-6, 1e-9),
+  "gulp": (1e-10, 1e-11), "funcfl": (None, 1.01e-16), "setfl_header_f": (1e-6, 1e-9),
+}
+
+
+def precision_ok(tok, fmt):
+  """True when the printed token carries at least the precision its format has always had."""
+  A, Rr = PRECISION[fmt]
+  q = R.token_quantum(tok)
+  try:
+    v = abs(float(tok))
+  except ValueError:
+    return True
+  if A is not None and q <= A * (1 + 1e-9):
+    return True
+  if v == 0:
+    return ("e" in tok.lower()) or (A is None) or q <= (A or 0) * (1 + 1e-9)
+  # relative quantum of an e-notation token: 10^-digits of its mantissa
+  t = tok.strip().lower()
+  if "e" in t:
+    mant = t.split("e")[0]
+    digits = len(mant.split(".")[1]) if "." in mant else 0
+    return 10.0 ** (-digits) <= Rr * (1 + 1e-9)
+  return q / v <= Rr
+
+
 def branch_sides(orc, r):
   """Selection points to try for a grid value at r: [r] normally; on a breakpoint also just above / below."""
   r = F(r)
@@ -132,7 +161,14 @@ def matching_sides(orc, r, tok, factor=1, rel=1e-9, abs_=0.0):
   return out
 
 
-def check_value(ctx, kind, tok, orc, r, factor=1, rel=1e-9, abs_=0.0, where=None, count=True):
+def check_value(ctx, kind, tok, orc, r, factor=1, rel=1e-9, abs_=0.0, where=None, count=True, fmt=None):
+  if fmt is not None and not precision_ok(tok, fmt):
+    ctx.violation("precision", "%s: token %r carries fewer digits than the %s format (at %s)" % (kind, tok, fmt, where), what="precision", fmt=fmt)
+    return False
+  return _check_value(ctx, kind, tok, orc, r, factor, rel, abs_, where, count)
+
+
+def _check_value(ctx, kind, tok, orc, r, factor=1, rel=1e-9, abs_=0.0, where=None, count=True):
   """tok == orc(r)*factor.  When r sits on a range boundary / table end (the writer's
   floating-point r and the exact grid point may fall on different sides) the value of
   either side is accepted."""
@@ -170,8 +206,11 @@ def check_value(ctx, kind, tok, orc, r, factor=1, rel=1e-9, abs_=0.0, where=None
   return False
 
 
-def check_token(ctx, kind, tok, ref, sc, rel=1e-9, abs_=0.0, where=None, quantum=None, mag=0):
+def check_token(ctx, kind, tok, ref, sc, rel=1e-9, abs_=0.0, where=None, quantum=None, mag=0, fmt=None):
   """Compare a printed token with the reference.  Returns True if it agrees."""
+  if fmt is not None and not precision_ok(tok, fmt):
+    ctx.violation("precision", "%s: token %r carries fewer digits than the %s format (at %s)" % (kind, tok, fmt, where), what="precision", fmt=fmt)
+    return False
   try:
     obs = float(tok)
   except ValueError:
